@@ -1842,7 +1842,8 @@ impl KotoVm {
                         self.set_register(result, display_context.result().into());
                         Ok(())
                     }
-                    Err(_) => runtime_error!("failed to get display value"),
+                    // Errors thrown while displaying contained values are passed on unchanged
+                    Err(error) => Err(error),
                 }
             }
         }
@@ -1863,7 +1864,8 @@ impl KotoVm {
                         self.set_register(result, display_context.result().into());
                         Ok(())
                     }
-                    Err(_) => runtime_error!("failed to get display value"),
+                    // Errors thrown while displaying contained values are passed on unchanged
+                    Err(error) => Err(error),
                 }
             }
         }
